@@ -82,7 +82,7 @@ func drawCase(t *rapid.T) Case {
 		var s Step
 		kinds := []string{"pay", "pay", "pay", "subopen"}
 		if subOpen && !subFinal {
-			kinds = []string{"pay", "pay", "subpay", "subpay", "subclose", "subfinal", "settle-timeout"}
+			kinds = []string{"pay", "pay", "subpay", "subpay", "subclose", "subfinal", "settle-timeout", "subopen2", "sub2pay"}
 		} else if subOpen {
 			// the sub-channel is final but not settled yet: the parent goes on meanwhile
 			kinds = []string{"pay", "pay", "subsettle"}
@@ -93,6 +93,11 @@ func drawCase(t *rapid.T) Case {
 		s.Amount = uint64(rapid.IntRange(0, 60).Draw(t, "amount"))
 		s.Accept = rapid.IntRange(0, 4).Draw(t, "accept") != 0
 		switch s.Kind {
+		case "subopen2":
+			for a := 0; a < na; a++ {
+				s.Bals = append(s.Bals, [2]uint64{uint64(rapid.IntRange(0, 6).Draw(t, "sub2A")), uint64(rapid.IntRange(0, 6).Draw(t, "sub2B"))})
+			}
+			s.Accept = true
 		case "subopen":
 			for a := 0; a < na; a++ {
 				s.Bals = append(s.Bals, [2]uint64{uint64(rapid.IntRange(0, 15).Draw(t, "subA")), uint64(rapid.IntRange(0, 15).Draw(t, "subB"))})
@@ -254,6 +259,21 @@ func runCase(c Case) (o *h.Outcome) {
 			}
 		}
 	}
+	var sub2 [2]*client.Channel // a second sub-channel, by party
+	// lastPayment: the final update of the sub-channel may carry a last payment
+	lastPayment := func(s Step) func(*channel.State) {
+		if s.Amount == 0 || s.Amount%3 == 0 || pr.Sub[0] == nil {
+			return nil
+		}
+		ch := pr.Sub[pr.SubBy]
+		from := sim.Idx(ch)
+		amt := new(big.Int).SetUint64(s.Amount % 7)
+		if stateOf(ch).Balances[s.Asset][from].Cmp(amt) < 0 || amt.Sign() == 0 {
+			return nil
+		}
+		o.Class("sub-final-update-with-payment")
+		return sim.Transfer(s.Asset, from, amt, false)
+	}
 	balanceChanging, rejected, subUsed := 0, 0, false
 	subFinalised := false
 	var subID channel.ID
@@ -398,7 +418,10 @@ func runCase(c Case) (o *h.Outcome) {
 			if pr.Sub[0] == nil || subFinalised {
 				continue
 			}
-			if err := pr.CloseSub(); err != nil {
+			if err := pr.FinalizeSubWith(lastPayment(s)); err != nil {
+				return fail("subclose-failed", "step %d: honest final sub-channel update failed: %v", si, err)
+			}
+			if err := pr.SettleSub(); err != nil {
 				return fail("subclose-failed", "step %d: honest sub-channel settlement failed: %v", si, err)
 			}
 			o.Class("sub-closed")
@@ -406,10 +429,46 @@ func runCase(c Case) (o *h.Outcome) {
 			if pr.Sub[0] == nil || subFinalised {
 				continue
 			}
-			if err := pr.FinalizeSub(); err != nil {
+			if err := pr.FinalizeSubWith(lastPayment(s)); err != nil {
 				return fail("subfinal-failed", "step %d: honest final sub-channel update failed: %v", si, err)
 			}
 			subFinalised = true
+		case "subopen2":
+			// a second sub-channel next to the first one; it stays open until the
+			// ledger channel is settled
+			if pr.Sub[0] == nil || sub2[0] != nil {
+				continue
+			}
+			parent := stateOf(pr.Ch[c.Proposer])
+			ok := true
+			for a := range s.Bals {
+				for p := 0; p < 2; p++ {
+					if parent.Balances[a][sim.Idx(pr.Ch[p])].Cmp(new(big.Int).SetUint64(s.Bals[a][p])) < 0 {
+						ok = false
+					}
+				}
+			}
+			if !ok {
+				continue
+			}
+			chs, err := pr.OpenSubExtra(c.Proposer, bigs(s.Bals), c.Challenge)
+			if err != nil {
+				return fail("subopen-failed", "step %d: honest opening of a second sub-channel failed: %v", si, err)
+			}
+			sub2 = chs
+			o.Class("second-sub-channel")
+		case "sub2pay":
+			if sub2[0] == nil {
+				continue
+			}
+			ch := sub2[s.By]
+			amt := new(big.Int).SetUint64(s.Amount)
+			if stateOf(ch).Balances[s.Asset][sim.Idx(ch)].Cmp(amt) < 0 {
+				continue
+			}
+			if err := pr.Update(s.By, ch, sim.Transfer(s.Asset, sim.Idx(ch), amt, false), true); err != nil {
+				return fail("update-failed", "step %d (sub2pay): accepted honest update failed: %v", si, err)
+			}
 		case "subsettle":
 			if pr.Sub[0] == nil || !subFinalised {
 				continue
@@ -423,7 +482,8 @@ func runCase(c Case) (o *h.Outcome) {
 		}
 	}
 	subOpenAtEnd := pr.Sub[0] != nil
-	if c.FinalLast && !subOpenAtEnd {
+	anySubOpen := subOpenAtEnd || sub2[0] != nil // a ledger channel is not finalised while it locks funds
+	if c.FinalLast && !anySubOpen {
 		if err := pr.Update(c.Order[0], pr.Ch[c.Order[0]], func(s *channel.State) { s.IsFinal = true }, true); err != nil {
 			return fail("final-update-failed", "final update failed: %v", err)
 		}
@@ -439,7 +499,7 @@ func runCase(c Case) (o *h.Outcome) {
 	if !pr.Env.Quiesce(10*time.Millisecond, sim.HangLimit) {
 		return fail("harness", "world did not become quiet before settlement")
 	}
-	rush := c.Rush && !subOpenAtEnd && !c.FinalLast
+	rush := c.Rush && !anySubOpen && !c.FinalLast
 	var rushRes [2]sim.SettleResult
 	var rushBefore [2][]*big.Int
 	if rush {
@@ -481,6 +541,14 @@ func runCase(c Case) (o *h.Outcome) {
 	if cur := stateOf(pr.Ch[0]); !rush && cur.Equal(agreed) != nil {
 		return fail("current-not-agreed", "party A's current state (v%d) is not the last agreed state (v%d)", cur.Version, agreed.Version)
 	}
+	var sub2Agreed *channel.State
+	if sub2[0] != nil {
+		sub2Agreed, f = lastAgreed(pr, sub2[0].ID())
+		if f != nil {
+			o.Fail = f
+			return o
+		}
+	}
 	var subAgreed *channel.State
 	if subOpenAtEnd {
 		subAgreed, f = lastAgreed(pr, subID)
@@ -517,6 +585,9 @@ func runCase(c Case) (o *h.Outcome) {
 			if subAgreed != nil {
 				want.Add(want, subAgreed.Balances[a][sim.Idx(pr.Sub[i])])
 			}
+			if sub2Agreed != nil {
+				want.Add(want, sub2Agreed.Balances[a][sim.Idx(sub2[i])])
+			}
 			got := new(big.Int).Sub(L.Balance(pr.P[i].Acc.Address(), aid), before[i][a])
 			if got.Cmp(want) != 0 {
 				return fail("payout", "party %d was paid %v of asset %d, its balance in the last agreed state (v%d%s) is %v", i, got, a, agreed.Version, map[bool]string{true: " + sub-channel", false: ""}[subAgreed != nil], want)
@@ -533,7 +604,7 @@ func runCase(c Case) (o *h.Outcome) {
 	for _, p := range L.Problems() {
 		return fail("ledger-rule:"+p.Kind, "%s: %s", p.Who, p.Msg)
 	}
-	o.Nontrivial = balanceChanging > 0 && (rejected > 0 || !(c.FinalLast && !subOpenAtEnd) || subUsed || na > 1)
+	o.Nontrivial = balanceChanging > 0 && (rejected > 0 || !(c.FinalLast && !anySubOpen) || subUsed || na > 1)
 	if rejected > 0 {
 		o.Class("with-reject")
 	}
